@@ -122,6 +122,7 @@ pub fn main(args: &[String]) {
         for d in [1usize, 2, 3, 8] { fam.push(("kmacro-include-cycle", d)); }
         for d in [1usize, 2, 5] { fam.push(("include-cycle", d)); fam.push(("macro-cycle", d)); }
         for d in [3usize, 63, 64, 65] { fam.push(("include-chain", d)); fam.push(("macro-chain", d)); fam.push(("mixed-chain", d)); }
+        for (dd, m) in [(63usize, 3usize), (40, 26), (10, 60), (5, 5)] { fam.push(("grid-text", dd * 100 + m)); fam.push(("grid-name", dd * 100 + m)); fam.push(("grid-body", dd * 100 + m)); }
         for (fi, (kind, d)) in fam.into_iter().enumerate() {
             let (files, top, _) = crate::c09::family(kind, d);
             let dir = format!("fam{}", fi);
